@@ -26,7 +26,6 @@ for s in (0, 1, 2):
 run("c19_layout.cpp", "nochk", ts(2, 0))
 run("c19_mdspan.cpp", "nochk", ts(2, 0))
 run("c19_mdspan.cpp", "san", ts(1, 0))
-run("c19_mdspan.cpp", "san", ts(1, 1))
 run("c19_span.cpp", "nochk", ["-DMC_PART=1"], Q)
 run("c19_span.cpp", "san", ["-DMC_PART=1"], Q)
 run("c19_span.cpp", "chk", ["-DMC_PART=1"], Q)
@@ -53,6 +52,7 @@ for src in ("c19_layout.cpp", "c19_mdspan.cpp"):
     for s in (0, 1):
         run(src, "chk", ts(1, s), TH)
     run(src, "O2", ts(1, 0), TH)
+run("c19_mdspan.cpp", "san", ts(1, 1), TH)
 run("c19_mdspan.cpp", "san", ts(1, 2), TH)
 run("c19_mdspan.cpp", "san", ts(2, 0), TH)
 run("c19_mdspan.cpp", "san", ts(3, 0), TH)
